@@ -253,9 +253,10 @@ func (i *Iterator) autoNext(ctx context.Context) bool {
 
 func (i *Iterator) autoPrev(ctx context.Context) bool {
 	i.reset(i.view.Start.SpanRange(0))
+	ref := i.view.Start
 	startApprox, err := i.idx.Stamp(
 		ctx,
-		i.view.Start,
+		ref,
 		-i.AutoChunkSize,
 		index.AllowDiscontinuous,
 	)
@@ -263,62 +264,39 @@ func (i *Iterator) autoPrev(ctx context.Context) bool {
 		i.err = err
 		return false
 	}
-	if startApprox.Lower.Before(i.bounds.Start) {
-		span := i.bounds.Start.Span(i.view.End)
-		if span <= 0 {
-			i.reset(i.bounds.Start.SpanRange(0))
-			return false
+	// The chunk is the AutoChunkSize samples before ref, so the view must start at the
+	// timestamp of the first of them.
+	//  - Inexact approximation (ref lies between two samples): the chunk's first
+	//    sample is the one right after the lower bound.
+	//  - Exact approximation with ref inside an index domain: ref is a sample and the
+	//    stamp is the chunk's first sample itself.
+	//  - Exact approximation with ref at the end of a domain (where SeekLast puts the
+	//    view): the index steps back from the domain's last sample instead of from
+	//    ref, so the stamp is the sample BEFORE the chunk's first one.
+	start := startApprox.Lower
+	if !startApprox.Exact() || !i.indexHasDomainAt(ctx, ref) {
+		if start != telem.TimeStampMin {
+			start++
 		}
-		return i.Prev(ctx, span)
 	}
-	i.view.Start = startApprox.Lower + 1
-	i.reset(i.view.BoundBy(i.bounds))
-	if i.view.Span().IsZero() || !i.internal.SeekLE(ctx, i.view.End-1) {
+	if start.Before(i.bounds.Start) {
+		start = i.bounds.Start
+	}
+	span := start.Span(ref)
+	if span <= 0 {
+		i.reset(i.bounds.Start.SpanRange(0))
 		return false
 	}
-	nRemaining := i.AutoChunkSize
-	for {
-		if !i.internal.TimeRange().OverlapsWith(i.view) {
-			if !i.internal.Prev() {
-				return false
-			}
-			continue
-		}
-		endApprox, err := i.approximateEnd(ctx)
-		if err != nil {
-			i.err = err
-			return false
-		}
-		endSample := endApprox.Upper
-		if !startApprox.Exact() && !endApprox.StartExact {
-			endSample = endApprox.Lower
-		}
-		endOffset, err := i.resolver.byteOffset(ctx, i.internal, endSample)
-		if err != nil {
-			i.err = err
-			return false
-		}
-		startSample := endSample - nRemaining
-		if startSample < 0 {
-			startSample = 0
-		}
-		startOffset, err := i.resolver.byteOffset(ctx, i.internal, startSample)
-		if err != nil {
-			i.err = err
-			return false
-		}
-		series, err := i.read(ctx, 0, startOffset, endOffset-startOffset)
-		if err != nil && !errors.Is(err, io.EOF) {
-			i.err = err
-			return false
-		}
-		nRemaining -= series.Len()
-		i.insert(series)
-		if nRemaining <= 0 || !i.internal.Prev() {
-			break
-		}
-	}
-	return i.partiallySatisfied()
+	// Read by view, exactly like a fixed-span step: the frame then holds the samples
+	// inside the reported view by construction.
+	return i.Prev(ctx, span)
+}
+
+// indexHasDomainAt reports whether a domain of the index channel contains ts.
+func (i *Iterator) indexHasDomainAt(ctx context.Context, ts telem.TimeStamp) bool {
+	iter := i.idx.DB.OpenIterator(domain.IterRange(ts.SpanRange(1)))
+	defer func() { _ = iter.Close() }()
+	return iter.SeekFirst(ctx) && iter.TimeRange().ContainsStamp(ts)
 }
 
 // Prev moves the iterator backward by span. More specifically, if the current view is
